@@ -7,6 +7,7 @@ import (
 	"fmt"
 	"io"
 	"reflect"
+	"sort"
 	"time"
 
 	"github.com/csgura/fp"
@@ -47,6 +48,65 @@ var c15Strings = []string{"", "plain", "quote\"back\\slash", "tab\tnew\nline", "
 
 // intact records of other schemas (what a misdirected read returns)
 var c15Foreign = []string{`"text"`, `12`, `300`, `-1.5e3`, `true`, `[1,2]`, `["a"]`, `{"a":1}`, `{"a":"x","b":7,"c":"y","D":[1]}`, `[]`, `{}`, `"12"`, `[null]`, `{"p":"x"}`, `1e400`, `99999999999999999999`, `[[1]]`, `{"k":1}`}
+
+// c15SchemaDrift re-encodes rec with one leaf replaced by a value of a different JSON type.
+func c15SchemaDrift(r *sim.Run, rec []byte) ([]byte, string) {
+	var doc any
+	dec := json.NewDecoder(bytes.NewReader(rec))
+	dec.UseNumber()
+	if dec.Decode(&doc) != nil {
+		return rec, "none (record does not parse)"
+	}
+	type slot struct {
+		set func(any)
+		old any
+	}
+	var leaves []slot
+	var walk func(v any, set func(any))
+	walk = func(v any, set func(any)) {
+		switch x := v.(type) {
+		case map[string]any:
+			keys := make([]string, 0, len(x))
+			for k := range x {
+				keys = append(keys, k)
+			}
+			sort.Strings(keys)
+			for _, k := range keys {
+				k := k
+				walk(x[k], func(n any) { x[k] = n })
+			}
+			if len(x) == 0 {
+				leaves = append(leaves, slot{set, v})
+			}
+		case []any:
+			for i := range x {
+				i := i
+				walk(x[i], func(n any) { x[i] = n })
+			}
+			if len(x) == 0 {
+				leaves = append(leaves, slot{set, v})
+			}
+		default:
+			leaves = append(leaves, slot{set, v})
+		}
+	}
+	walk(doc, func(n any) { doc = n })
+	l := leaves[r.Choose(len(leaves), "driftLeaf")]
+	alts := []any{"drift", json.Number("7"), true, []any{json.Number("1")}, map[string]any{"x": json.Number("1")}, json.Number("1.5"), json.Number("300")}
+	var nv any
+	for k := r.Choose(len(alts), "driftTo"); ; k++ {
+		nv = alts[k%len(alts)]
+		if fmt.Sprintf("%T", nv) != fmt.Sprintf("%T", l.old) || fmt.Sprint(nv) == "1.5" {
+			break
+		}
+	}
+	l.set(nv)
+	out, err := json.Marshal(doc)
+	if err != nil {
+		return rec, "none"
+	}
+	return out, fmt.Sprintf("a leaf holding %v now holds %v", l.old, nv)
+}
 
 type shortReader struct {
 	data   []byte
@@ -126,11 +186,18 @@ func c15Faults(r *sim.Run, rec, other []byte) (out [][]byte, names []string) {
 	n := r.Range(2, 8, "nFaults")
 	for i := 0; i < n; i++ {
 		b := append([]byte(nil), rec...)
-		kind := r.Choose(9, "faultKind")
+		kind := r.Choose(10, "faultKind")
 		if len(b) == 0 && kind != 8 {
 			kind = 7
 		}
 		switch kind {
+		case 9:
+			// schema drift: an intact, well-formed record in which one leaf has a value of another JSON type
+			// (what a writer with a different schema version stores); other fields keep their good values
+			nb, what := c15SchemaDrift(r, b)
+			b = nb
+			names = append(names, "schema drift: "+what)
+			r.Fault("schema-drift")
 		case 8:
 			// misdirected read: the store returns an intact record of another schema
 			b = []byte(c15Foreign[r.Choose(len(c15Foreign), "foreign")])
@@ -207,6 +274,31 @@ func c15Run[T any](c *c15ctx, v, pre, otherVal T, plain any, hasPlain bool, isOp
 		}
 	}
 	other, _ := json.Marshal(otherVal)
+	// the writer may hand the slice returned by the value's own MarshalJSON straight to the store (no copy) and go on
+	// marshalling other records: a record at rest must not change
+	if mv, ok := any(v).(json.Marshaler); ok {
+		atRest, err := mv.MarshalJSON()
+		if err != nil {
+			r.Violate("marshal-error", "%s: MarshalJSON(%v) failed: %v", c.name, v, err)
+			return
+		}
+		snapshot := append([]byte(nil), atRest...)
+		for _, x := range []any{otherVal, pre, v, otherVal} {
+			if mo, ok := x.(json.Marshaler); ok {
+				mo.MarshalJSON()
+			}
+		}
+		r.Probe("records-kept-at-rest-while-writer-continues")
+		if !bytes.Equal(atRest, snapshot) {
+			r.Violate("record-changed-at-rest", "%s: the bytes MarshalJSON returned for %v were %s and read %s after later MarshalJSON calls on other values", c.name, v, snapshot, atRest)
+			return
+		}
+		var viaStd, viaOwn bytes.Buffer
+		if json.Compact(&viaStd, rec) == nil && json.Compact(&viaOwn, snapshot) == nil && !bytes.Equal(viaStd.Bytes(), viaOwn.Bytes()) {
+			r.Violate("encoding-differs", "%s: MarshalJSON gives %s, json.Marshal gives %s", c.name, snapshot, rec)
+			return
+		}
+	}
 	r.MixFingerprintS(c.name)
 	r.MixFingerprintS(string(rec))
 	chunks := []int{r.Range(1, 3, "chunk1"), r.Range(1, 5, "chunk2")}
